@@ -382,7 +382,7 @@ ES_COVER = {
     "poll": (("{1}", "{}", 3, 0, '{"overlap","peer","close","abort","window","dwindow","cwindow","lastonly"}'),
              ("{1,2}", "{7}", 3, 0, '{"overlap","peer","close","abort","window","dwindow","cwindow","lastonly"}')),
     "dreq": (("{}", "{7,8}", 0, 0, '{"dreq","close","overlap","abort","closewin","lastonly"}'),
-             ("{1}", "{7,8}", 1, 0, '{"dreq","close","overlap","abort","closewin","lastonly"}')),
+             ("{}", "{7,8}", 1, 0, '{"dreq","close","overlap","abort","closewin","lastonly"}')),
 }
 
 
